@@ -10,7 +10,7 @@ Definition synth_case (nl : netlist) (dflt : Z) (regmap : list (Z * Z))
     (memmap : list (Z * list (Z * Z))) (inss : list (list (Z * Z))) (outs : list Z)
   : list (list Z) :=
   let ins := map ins_of inss in
-  let '(bvs, _) := grun nl (synth nl) (ginit nl regmap memmap) ins in
+  let '(bvs, _) := grun nl (ginit nl regmap memmap) ins in
   [b2z (wfb nl && synth_okb nl)]
   :: map (fun bv => map (fun o => bits_val bv o (wnat nl o)) outs) bvs.
 
